@@ -52,7 +52,9 @@ func c04Profiles(rng *rand.Rand, tier string) []Profile {
 		ps = append(ps, p)
 	}
 	// failure-injection family (appended: the profiles above keep their random draws), inject.go
-	return append(ps, InjectProfiles(rng, tier)...)
+	ps = append(ps, InjectProfiles(rng, tier)...)
+	// stale-argument family (appended last: everything above keeps its random draws), stale.go
+	return append(ps, StaleProfiles(tier)...)
 }
 
 // InjectProfiles: the failure sweeps (every injection kind once at every step kind: apply, sync apply, delete,
@@ -177,7 +179,9 @@ func (p Prop) Classify(c corr.Case, out []string) string {
 			}
 		case "delat":
 			has["delat-"+w[0]] = true
-		case "restart", "till", "twin", "gap", "lasth":
+		case "delarg": // stale.go
+			has["delarg-"+w[0]] = true
+		case "restart", "till", "twin", "gap", "lasth", "forge":
 			has[op] = true
 		case "restartg":
 			a := args(c.Ops[i])
@@ -215,7 +219,12 @@ func (p Prop) Classify(c corr.Case, out []string) string {
 	}
 	var keys []string
 	for _, k := range []string{"tieBreakApplied", "tieBreakReverted", "doubleForging", "identical", "discard", "wouldSync", "err", "del-refused", "delat-err", "restart", "restart-guard", "sctx", "till", "twin", "pv-ok", "pv-sync-fin", "gap",
-		"restartg-genesis-err", "restartg-genesis-ok", "restartg-cfg", "restartg-chainid", "inject"} {
+		"restartg-genesis-err", "restartg-genesis-ok", "restartg-cfg", "restartg-chainid", "inject", "forge"} {
+		if has[k] {
+			keys = append(keys, k)
+		}
+	}
+	for _, k := range []string{"delarg-ok", "delarg-err"} { // stale.go
 		if has[k] {
 			keys = append(keys, k)
 		}
